@@ -675,6 +675,11 @@ class Vector():
 		key = self._check_duplicate(key)
 		value = self._check_duplicate(value)
 
+		# a one-shot iterator (a generator, map, zip ...) has no length and can be read only once:
+		# its values are taken now, before anything is checked or written (as list assignment does)
+		if isinstance(value, Iterator):
+			value = list(value)
+
 		# Is the incoming value iterable?
 		is_seq_val = (
 			isinstance(value, Iterable)
